@@ -71,10 +71,24 @@ impl DhtHandler {
         let table_refresh = TableRefresh::new(mid_generator, table.clone());
 
         let mid_generator = aid_generator.generate();
+        #[cfg(feature = "verif")]
+        let bootstrap_action_id = mid_generator.action_id();
         let bootstrap =
             TableBootstrap::new(socket.clone(), table.clone(), mid_generator, routers, nodes);
 
         let timer = Timer::new();
+
+        #[cfg(feature = "verif")]
+        {
+            crate::verif::register_table(this_node_id, &table);
+            crate::verif::record(
+                this_node_id,
+                crate::verif::EventKind::NodeCreated {
+                    refresh: table_refresh.action_id().verif_raw(),
+                    bootstrap: bootstrap_action_id.verif_raw(),
+                },
+            );
+        }
 
         Self {
             this_node_id,
@@ -410,6 +424,12 @@ impl DhtHandler {
     }
 
     async fn handle_bootstrap_success(&mut self) {
+        #[cfg(feature = "verif")]
+        crate::verif::record(
+            self.this_node_id,
+            crate::verif::EventKind::BootstrapCompleted,
+        );
+
         // Send notification that the bootstrap has completed.
         for (_, tx) in self.bootstrap_txs.drain() {
             tx.send(()).unwrap_or(())
@@ -424,6 +444,16 @@ impl DhtHandler {
         let mid_generator = self.aid_generator.generate();
         let action_id = mid_generator.action_id();
 
+        #[cfg(feature = "verif")]
+        crate::verif::record(
+            self.this_node_id,
+            crate::verif::EventKind::LookupStarted {
+                info_hash: lookup.info_hash,
+                action: action_id.verif_raw(),
+                announce: lookup.announce,
+            },
+        );
+
         let mut lookup = TableLookup::new(
             lookup.info_hash,
             lookup.announce,
@@ -437,6 +467,13 @@ impl DhtHandler {
 
         if lookup.completed() {
             lookup.recv_finished(self.announce_port, &self.socket).await;
+            #[cfg(feature = "verif")]
+            crate::verif::record(
+                self.this_node_id,
+                crate::verif::EventKind::LookupFinished {
+                    action: action_id.verif_raw(),
+                },
+            );
         } else {
             self.lookups.insert(action_id, lookup);
         }
@@ -491,7 +528,15 @@ impl DhtHandler {
             return;
         };
 
-        lookup.recv_finished(self.announce_port, &self.socket).await
+        lookup.recv_finished(self.announce_port, &self.socket).await;
+
+        #[cfg(feature = "verif")]
+        crate::verif::record(
+            self.this_node_id,
+            crate::verif::EventKind::LookupFinished {
+                action: trans_id.action_id().verif_raw(),
+            },
+        );
     }
 
     async fn handle_check_table_refresh(&mut self) {
